@@ -1043,6 +1043,17 @@ def stream_for0(pid, tier, seed):
         cases += spare_stream(rng, pid) + probe_panic_ledger_stream(rng, pid) + bigarr_stream(rng, pid)
         cases += [c for c in inpanic_stream(rng, pid) if c.kind in ("vec", "array", "iter") and "P" not in (c.script or [])]
         cases += relocate_stream(rng, pid, kinds=("vec", "array", "iter"))
+        # empty chunk requests (legal for one-shot pulls: they take nothing) between ordinary pulls, at every progress point
+        j = 0
+        for kind in ("vec", "array", "iter"):
+            for n in (1, 3, 5):
+                for pre in range(0, n + 1):
+                    for owner in ("drop", "intoseq all", "intoseq 1"):
+                        c = make_source(rng, "%s-zero%d" % (pid, j), kind, n)
+                        c.threads = [["next"] * pre + ["chunk 0 all", "chunk 0 1"] + rng.choice([[], ["next"], ["chunk 2 1"], ["skip"]])]
+                        c.owner = owner
+                        cases.append(c)
+                        j += 1
         return cases
     if pid == "C09":
         cases = defects + pulls_stream(rng, tier, pid, n_random=1000 if not big else 40000, prof=dict(skip=True))
